@@ -133,10 +133,11 @@ def schemeHTTPS : List Nat := [104, 116, 116, 112, 115]
 
 /-- `config.useProxyHostPort(host, port)`. -/
 def useProxy (c : Cfg) (r : Req) : Bool :=
-  if r.host = localhost then false
+  -- host names are case-insensitive: `addr := strings.ToLower(strings.TrimSpace(host))` comes first
+  let addr := toLower (trimSpace r.host)
+  if addr = localhost then false
   else if (match r.ip with | some ip => isLoopback ip | none => false) then false
   else
-    let addr := toLower (trimSpace r.host)
     if r.ip.isSome && c.ipMatchers.any (fun m => m.matches addr r.port r.ip) then false
     else if c.domainMatchers.any (fun m => m.matches addr r.port r.ip) then false
     else true
